@@ -540,6 +540,83 @@ func main() {
 }
 `, w%9+2, n, w%9+2)
 	}},
+	{"private-state-statement-mix", func(w, n int) string {
+		// every worker runs the same statements on its own data only: any state the interpreter keeps per
+		// statement instead of per execution is shared between them
+		return c08Head + fmt.Sprintf(`type rec struct {
+	id   int
+	tags []string
+	m    map[string]int
+}
+
+type shaper interface{ area() int }
+type sq struct{ s int }
+type rc struct{ a, b int }
+
+func (q sq) area() int { return q.s * q.s }
+func (r rc) area() int { return r.a * r.b }
+
+func work(id, n int) int {
+	buf := []int{}
+	names := []string{}
+	m := map[int]string{}
+	arr := [4]int{}
+	sum := 0
+	for k := 0; k < n; k++ {
+		buf = append(buf, id, k, id+k)
+		buf = append(buf, []int{k, k}...)
+		names = append(names, fmt.Sprint(id), "x")
+		m[k%%5] = fmt.Sprint(id, "-", k)
+		arr[k%%4], arr[(k+1)%%4] = id, k
+		r := rec{id: id, tags: []string{"a", fmt.Sprint(k)}, m: map[string]int{"k": k}}
+		var sh shaper = sq{k}
+		if k%%2 == 0 {
+			sh = rc{id, k}
+		}
+		switch v := sh.(type) {
+		case sq:
+			sum += v.s
+		case rc:
+			sum += v.a + v.b
+		}
+		f := func(d int) int { return d + r.id + len(r.tags) + r.m["k"] }
+		sum += f(k) + sh.area() + copy(buf[1:], buf[:2]) + len(names[len(names)-1]) + len(m) + arr[k%%4]
+		s := fmt.Sprint(id) + "/" + names[0] + "/" + m[k%%5]
+		if s[0] != fmt.Sprint(id)[0] || buf[0] != id || names[0] != fmt.Sprint(id) {
+			return -1
+		}
+		for i, v := range buf[len(buf)-3:] {
+			sum += i * v %% 7
+		}
+		func() {
+			defer func() { sum += len(buf) %% 3 }()
+			sum, arr[0] = sum+1, arr[0]+0
+		}()
+	}
+	for _, v := range buf {
+		if v != id && v >= n+id {
+			return -2
+		}
+	}
+	return sum %% 100003
+}
+
+func main() {
+	const W = %d
+	res := make([]int, W)
+	var wg sync.WaitGroup
+	for i := 0; i < W; i++ {
+		wg.Add(1)
+		go func(id int) {
+			defer wg.Done()
+			res[id] = work(id+1, %d)
+		}(i)
+	}
+	wg.Wait()
+	fmt.Println("mix", res)
+}
+`, w, n)
+	}},
 	{"closures-sharing-a-mutex-protected-variable", func(w, n int) string {
 		return c08Head + fmt.Sprintf(`func main() {
 	var mu sync.Mutex
@@ -979,7 +1056,7 @@ func c01Program(idx uint64) string {
 }
 
 func checkC08(r *core.Run) {
-	r.Rule = "cell = (workload, goroutine count, GOMAXPROCS, yield pattern, repetition), run in a child built with the race detector (GORACE halt_on_error=0, reports read from the log after each cell). Workloads: thirteen schedule-independent script templates (pipeline, fan-out/fan-in pool, per-worker private channels in the same select statement, mutex-protected counter and map, producer/consumer with close and range, go statements whose arguments are reassigned right after, range over per-worker channels, ring of select nodes mixing send / receive / quit, closures sharing mutex-protected variables, sync/atomic counters with compare-and-swap loops, RWMutex readers and writers, sync.Once with a buffered-channel semaphore and panics recovered inside goroutines, a recursive goroutine tree with per-node result channels), compared with the gc binary of the same source; N host goroutines calling the same exported recursive function (locals, closures, defer, sort callback, select) with distinct arguments, compared with a native twin; Put/Get/CAS on a script-side mutex-protected map called from host goroutines, history checked for linearizability (porcupine, partitioned by key); N interpreters running different generated programs in parallel, each compared with its own sequential output. The step hook yields with probability 0, 1/64 or 1/4 per interpreted operation; when it does, the goroutine-start hook also yields 0-3 times before a goroutine launched on a function value makes its call. Verdict: no race report, expected output, no error. non-trivial = the cell executed interpreted operations in more than one goroutine"
+	r.Rule = "cell = (workload, goroutine count, GOMAXPROCS, yield pattern, repetition), run in a child built with the race detector (GORACE halt_on_error=0, reports read from the log after each cell). Workloads: fourteen schedule-independent script templates (workers running the same broad statement mix (multi-value append, copy, map and array updates, composite literals, type switches, closures, defers, string building) on private data only, pipeline, fan-out/fan-in pool, per-worker private channels in the same select statement, mutex-protected counter and map, producer/consumer with close and range, go statements whose arguments are reassigned right after, range over per-worker channels, ring of select nodes mixing send / receive / quit, closures sharing mutex-protected variables, sync/atomic counters with compare-and-swap loops, RWMutex readers and writers, sync.Once with a buffered-channel semaphore and panics recovered inside goroutines, a recursive goroutine tree with per-node result channels), compared with the gc binary of the same source; N host goroutines calling the same exported recursive function (locals, closures, defer, sort callback, select) with distinct arguments, compared with a native twin; Put/Get/CAS on a script-side mutex-protected map called from host goroutines, history checked for linearizability (porcupine, partitioned by key); N interpreters running different generated programs in parallel, each compared with its own sequential output. The step hook yields with probability 0, 1/64 or 1/4 per interpreted operation; when it does, the goroutine-start hook also yields 0-3 times before a goroutine launched on a function value makes its call. Verdict: no race report, expected output, no error. non-trivial = the cell executed interpreted operations in more than one goroutine"
 	r.Assume = []string{"the scripts are data-race-free by construction, so a race report is attributed to the interpreter", "the race detector reports a given pair of stacks once per process: every cell runs in its own child"}
 	raceBin := os.Args[0] + ".race"
 	if _, err := os.Stat(raceBin); err != nil {
